@@ -95,6 +95,26 @@ def ordered_by_conds(p, start, end):
     return start == end
 
 
+def pair_as_array(a):
+    """[pair.0, pair.1]: the tuple's components in order, spelled as an array literal (what <[T; 2]>::from((a, b)) builds)"""
+    return a[0] == "agg" and a[1] == "array" and len(a[3]) == 2 and all(peel(x, ()) == ("field", ("param", 2), i, None) for i, x in enumerate(a[3]))
+
+
+def ordered_draw_range(p, r):
+    """r is a half-open range start..end over two random_range draws with start <= end: either the path has established
+    the order of the two draws, or the bounds are min(a, b)..max(a, b) of them; returns the two draws, else None"""
+    if not (r[0] == "agg" and path_ends(r[2], "Range::Range") and len(r[3]) == 2):
+        return None
+    lo, hi = r[3]
+    is_draw = lambda y: callee_is(y, "Rng::random_range", "Rng::gen_range")
+    if callee_is(lo, "Ord::min", "cmp::min") and callee_is(hi, "Ord::max", "cmp::max") and len(lo[3]) == 2 and len(hi[3]) == 2 and \
+            all(is_draw(y) for y in lo[3]) and set(lo[3]) == set(hi[3]) and lo[3][0] != lo[3][1] and "usize" in (lo[2] or "") and "usize" in (hi[2] or ""):
+        return tuple(lo[3])
+    if is_draw(lo) and is_draw(hi) and ordered_by_conds(p, lo, hi):
+        return (lo, hi)
+    return None
+
+
 def check_two_point(ctx, fid, kind):
     f = ctx.fn(fid)
     paths = [p for p in ctx.paths(f) if p.end != "unreachable"]
@@ -132,8 +152,9 @@ def check_two_point(ctx, fid, kind):
                 lhs, rhs = exch[0][3][0], exch[0][3][1]
                 lhs = peel(lhs, ()); rhs = peel(rhs, ())
                 ok = callee_is(lhs, "IndexMut::index_mut") and callee_is(rhs, "IndexMut::index_mut") and \
-                    peel(lhs[3][0], ("DerefMut::deref_mut",)) == G(0) and peel(rhs[3][0], ("DerefMut::deref_mut",)) == G(1) and lhs[3][1] == rhs[3][1]
-                rng_ = lhs[3][1] if ok else None
+                    peel(lhs[3][0], ("DerefMut::deref_mut",)) == G(0) and peel(rhs[3][0], ("DerefMut::deref_mut",)) == G(1) and \
+                    peel(lhs[3][1], ("Clone::clone",)) == peel(rhs[3][1], ("Clone::clone",))
+                rng_ = peel(lhs[3][1], ("Clone::clone",)) if ok else None
         else:
             ok = len(exch) == 1
             detail = ", ".join(short(c, 3) for c in exch)
@@ -141,13 +162,13 @@ def check_two_point(ctx, fid, kind):
                 ok = peel(exch[0][3][0], ()) == G(0) and peel(exch[0][3][1], ()) == G(1)
                 rng_ = exch[0][3][2] if ok else None
         if ok:
-            ok = rng_[0] == "agg" and path_ends(rng_[2], "Range::Range") and {rng_[3][0], rng_[3][1]} == set(draws) and len(draws) == 2 and \
-                ordered_by_conds(p, rng_[3][0], rng_[3][1])
+            od = ordered_draw_range(p, rng_)
+            ok = od is not None and len(draws) == 2 and set(od) == set(draws)
         ctx.check(ok, "R10.4", "%s/one-exchange-on-ordered-first..second/%d" % (tag, i), detail, at,
                   bad_detail="expected exactly one exchange of the same half-open range first..second (first <= second established by the path) on both parents; extracted %s under [%s]" % (detail, cond_str(p)[:300]))
         if not is_err_return(p):
             ctx.check(match(p.ret, Agg("Result::Ok", lambda e: e == G(0))), "R10.4", "%s/child-is-first-parent/%d" % (tag, i), short(p.ret), at)
-    ctx.floor("R10.4", n_ok, 2, tag + " equal-length paths")
+    ctx.floor("R10.4", n_ok, 1, tag + " equal-length paths")
 
 
 def check(ctx):
@@ -159,7 +180,7 @@ def check(ctx):
         for ty in ("(std::vec::Vec<T>, std::vec::Vec<T>)", "(G, G)"):
             f = ctx.fn(pre + R % ty)
             check_forwarder(ctx, "R10.1", "%s<%s>/forwards-to-array-impl" % (tag, ty), f, "Recombinator::recombine",
-                            [lambda a: derives_from_self(a), lambda a: callee_is(a, "From::from", "Into::into") and a[3][0] == ("param", 2), lambda a: rng_passthrough(a, 3)], wrappers=(), allowed_extra=("From::from", "Into::into"))
+                            [lambda a: derives_from_self(a), lambda a: (callee_is(a, "From::from", "Into::into") and a[3][0] == ("param", 2)) or pair_as_array(a), lambda a: rng_passthrough(a, 3)], wrappers=(), allowed_extra=("From::from", "Into::into"))
 
     check_uniform(ctx)
     check_bitstring_and_audit(ctx)
@@ -412,7 +433,9 @@ def check_bitstring_and_audit(ctx):
     ctx.floor("R10.6", len(erp), 1, "crossover_gene error paths")
 
     f = ctx.fn(BS + "crossover_segment")
-    paths = [p for p in ctx.paths(f) if p.end != "unreachable"]
+    # canonical paths: `match (a.get_mut(r), b.get_mut(r))`, `let (Some(..), Some(..)) = .. else`, and
+    # `a.get_mut(r).zip(b.get_mut(r)).map(|(l, r)| l.swap_with_slice(r)).ok_or(..)` all read: both Some -> one swap -> Ok, else the error
+    paths = [p for p in ctx.cpaths(f) if p.end != "unreachable"]
     okp = [p for p in paths if p.end == "return" and not is_err_return(p)]
     erp = [p for p in paths if is_err_return(p)]
     for p in okp:
@@ -489,14 +512,14 @@ def guard_vec_slices(ctx, s):
             if site_is(c, s):
                 if len_guard(p) != "equal":
                     return False, "not under the length equality guard"
-                ranges = [x for x in subexprs(c) if x[0] == "agg" and path_ends(x[2], "Range::Range")]
-                ranges = [r for r in ranges if all(callee_is(y, "Rng::random_range") for y in r[3])]
+                ranges = [x for x in subexprs(c) if x[0] == "agg" and path_ends(x[2], "Range::Range") and any(callee_is(z, "Rng::random_range") for z in subexprs(x))]
                 if not ranges:
                     return False, "slice range is not first..second of the two draws"
                 for r in ranges:
-                    if not ordered_by_conds(p, r[3][0], r[3][1]):
+                    od = ordered_draw_range(p, r)
+                    if od is None:
                         return False, "cut points not ordered on this path"
-                    for y in r[3]:
+                    for y in od:
                         d = draw_domain(y)
                         if not d or not is_len_of(d[2], 0):
                             return False, "cut point not bounded by the genome length"
@@ -527,9 +550,13 @@ def guard_uniform_index(ctx, s):
 
 def guard_segment_swap(ctx, s):
     fn = ctx.F.fns[s["fn"]]
-    for p in ctx.paths(fn):
+    root = fn
+    while root.is_closure and root.parent in ctx.F.fns:
+        root = ctx.F.fns[root.parent]
+    at_site = (lambda c: site_is(c, s)) if root is fn else (lambda c: tuple(c[4][-2:]) == (s["fn"], s["block"]))
+    for p in (ctx.paths(fn) if root is fn else ctx.cpaths(root)):
         for c in p.calls():
-            if site_is(c, s):
+            if at_site(c):
                 sides = []
                 for a in c[3]:
                     a = peel(a, ())
